@@ -218,9 +218,10 @@ def _real_case_in(case, rnd, out, tmp) -> list[str]:
                 elif k == "D":           # cursor.description on a fresh cursor of connection c: raises (nothing was executed)
                     try:
                         conns[int(ev[2:])].cursor().description  # noqa: B018
-                        out.append("-")
-                    except se_.Error:
-                        out.append("-")
+                        out.append("?description did not raise")
+                    except se_.Error as e:
+                        # on a connection without a current database the pre-check (90105) raises before any engine call
+                        out.append("-" if getattr(e, "errno", None) == 90105 else _canon_exc(e))
                 elif k == "X" and ev[1] == "w":     # the statement runs inside `with cursor:` and its error leaves the block
                     ci, st = ev[2:].split(":")
                     try:
@@ -503,7 +504,7 @@ def _cases(chk) -> list[dict]:
     # A. exhaustive statement-level interleavings of script pairs
     pairs = [(a, b) for a in range(len(CORE_SCRIPTS)) for b in range(len(CORE_SCRIPTS))]
     rnd.shuffle(pairs)
-    npairs = 12 if quick else 60    # thorough: a seeded sample of the ordered pairs (all of them is 125 CPU-min)
+    npairs = 12 if quick else 48    # thorough: a seeded sample of the ordered pairs (all of them is 125 CPU-min)
     for pi, (ia, ib) in enumerate(pairs[:npairs]):
         a, b = _inst(CORE_SCRIPTS[ia], 0), _inst(CORE_SCRIPTS[ib], 1)
         policy = ("dense", "others", "sparse", "others")[pi % 4] if quick else None
@@ -554,7 +555,12 @@ def _model_view(case):
         elif e[0] in "MR" and e[1] == "t":
             mev.append(e[0] + e[2:])
         elif e[0] == "D":
-            mev.append("Wn" + e[2:])                                   # reading a (raising) description runs no statement
+            # a description that raises is a failing Catalog statement on that connection (DESCRIBE of nothing: 2003): like any
+            # statement that binds against the database it pins a lazy snapshot, and it leaves the transaction usable
+            first = [i for i, x in enumerate([y for y in case["events"] if y[0] == "K"]) if int(x.lstrip("Kt")) == int(e[2:])]
+            opened = [y for y in case["events"] if y[0] == "C"]
+            unnamed = int(e[2:]) < len(opened) and opened[int(e[2:])] == "Cn"
+            mev.append(f"X{first[0]}:ft" if first and not unnamed else "Wn" + e[2:])
         elif e[0] == "X" and e[1] == "w":
             mev.append("X" + e[2:])                                    # same statement, its error merely leaves a with-block
         elif e[0] == "X" and e.split(":")[1][:2] == "pw":
